@@ -102,6 +102,12 @@ def dense_state_any(psi, first=0, n=None):
     return a.reshape(a.shape[0], -1, a.shape[-1])
 
 
+def dstate(psi):
+    """full vector of a finite MPS (incl. psi.norm) in the basis of the original sites"""
+    a = dense_state_any(psi)
+    return a[0, :, 0] * psi.norm
+
+
 def mr_(H):
     return None if H.max_range is None else ('inf' if H.max_range == np.inf else float(H.max_range))
 
@@ -320,12 +326,15 @@ def run_chain(case, npz):
                 kw = {'understood_infinite': True, 'num_sites': n} if inf else {}
                 for a_, b_, nm_ in ((R, Q, 'RQ'), (Q, R, 'QR')):
                     rec.run('is_equal:' + nm_, lambda a_=a_, b_=b_, nm_=nm_: o.__setitem__('is_equal_' + nm_, bool(a_.is_equal(b_))))
-                    rec.run('overlap:' + nm_, lambda a_=a_, b_=b_, nm_=nm_: o.__setitem__('overlap_' + nm_, cnum(a_.overlap(b_, **kw))))
-                    rec.run('distance:' + nm_, lambda a_=a_, b_=b_, nm_=nm_: o.__setitem__('distance_' + nm_, cnum(a_.distance(b_, **kw))))
-                rec.run('overlap:RR', lambda: o.__setitem__('overlap_RR', cnum(R.overlap(R, **kw))))
+                    if nm_ == spec.get('order', 'RQ'):
+                        rec.run('overlap:' + nm_, lambda a_=a_, b_=b_, nm_=nm_: o.__setitem__('overlap_' + nm_, cnum(a_.overlap(b_, **kw))))
+                        rec.run('distance:' + nm_, lambda a_=a_, b_=b_, nm_=nm_: o.__setitem__('distance_' + nm_, cnum(a_.distance(b_, **kw))))
                 if inf and spec.get('default_window'):
                     # documented default of num_sites: L + 2 * max_range of whichever MPO has the larger value (L for unknown / infinite)
                     for a_, b_, nm_ in ((R, Q, 'RQ'), (Q, R, 'QR')):
+                        if nm_ != spec.get('order', 'RQ'):
+                            continue
+
                         def dflt(a_=a_, b_=b_, nm_=nm_):
                             with warnings.catch_warnings(record=True) as wl:
                                 warnings.simplefilter('always')
@@ -388,16 +397,16 @@ def run_chain(case, npz):
                     p2.canonical_form(renormalize=False)
                 else:
                     err = R.apply(p2, opts)
-                rec.mats['apply/' + meth['name']] = I.dense_state(p2)
+                rec.mats['apply/' + meth['name']] = dstate(p2)
                 o['apply'] = {'eps': None if err is None else float(err.eps), 'chi': [int(x) for x in p2.chi], 'norm': float(p2.norm)}
-                rec.mats['psi_after'] = I.dense_state(psi)      # (the operand state must be unchanged: a copy was compressed)
+                rec.mats['psi_after'] = dstate(psi)      # (the operand state must be unchanged: a copy was compressed)
             elif name == 'env':
                 # <bra|R|ket> with bra != ket: full contraction at every bond, effective two-site Hamiltonian from LHeff / RHeff
                 bra = make_psi(sites, case['state'], bc, np.random.default_rng(case['seed'] + 77), {})
                 for s_ in st['structural']:
                     if s_[0] == 'group':
                         bra.group_sites(int(s_[1]))
-                rec.mats['bra'] = I.dense_state(bra) if st['per'] == 1 else np.zeros(0)
+                rec.mats['bra'] = dstate(bra)
                 o['bra_ket_overlap'] = cnum(bra.overlap(psi))
                 env = MPOEnvironment(bra, R, psi)
                 o['full_contraction'] = [cnum(env.full_contraction(i)) for i in range(R.L - 1)]
@@ -800,6 +809,43 @@ def run_ienv(case, npz):
         except TypeError as e:
             out['expectation_value_init_env_data_raises'] = 'TypeError: ' + str(e)[:150]
     rec.run('expectation_value:init_env_data', ied)
+
+    def badguess():
+        # a guess with incompatible MPO legs (environments of H + H): documented to be dropped with a warning
+        data2 = MPOTransferMatrix.find_init_LP_RP(H + H, psi)
+        out['TM_badguess'] = cnum(H.expectation_value_TM(psi, init_env_data=data2))
+    rec.run('expectation_value_TM:incompatible-guess', badguess)
+
+    def noncanon():
+        # the same state in a non-canonical gauge (B0 -> B0 D, B1 -> D^-1 B1): the routines re-canonicalise a copy / warn and canonicalise
+        p2 = psi.copy()
+        if max(p2.chi) > 1 and p2.L >= 2:
+            B0, B1 = p2.get_B(0, 'B'), p2.get_B(1, 'B')
+            dd = rng.uniform(0.5, 2.0, size=B0.get_leg('vR').ind_len)
+            p2.set_B(0, B0.scale_axis(dd, 'vR'), 'B')
+            p2.set_B(1, B1.scale_axis(1. / dd, 'vL'), 'B')
+            out['noncanonical_norm_err'] = float(np.linalg.norm(p2.norm_test()))
+            out['expectation_value_TM_noncanonical'] = cnum(H.expectation_value_TM(p2))
+            env = MPOEnvironment(p2, H, p2, force_init_method='TM')
+            out['full_contraction/noncanonical'] = [cnum(env.full_contraction(i)) for i in range(per)]
+    rec.run('noncanonical', noncanon)
+
+    def graph_reuse():
+        # H carries the graph / ordering built by the iterative initialisation: second call on the same object, then
+        # sort_legcharges and enlarge_mps_unit_cell, which must carry the graph along
+        es = lambda H_, p_: [cnum(x) for x in MPOEnvironmentBuilder(H_, p_).init_LP_RP_iterative('both', calc_E=True)[2]]
+        out['iter_Es_second'] = es(H, psi)
+        out['had_graph'] = H._graph is not None
+        H.sort_legcharges()
+        rec.mats['W/H_sorted'] = dense_any(H, case['N'])
+        out['iter_Es_sorted'] = es(H, psi)
+        out['expectation_value_sorted'] = cnum(H.expectation_value(psi))
+        H.enlarge_mps_unit_cell(2)
+        p2 = psi.copy()
+        p2.enlarge_mps_unit_cell(2)
+        out['iter_Es_enlarged'] = es(H, p2)
+    if Lp == L and case.get('graph_reuse'):
+        rec.run('graph_reuse', graph_reuse)
     np.savez(npz, **rec.mats)
     out['errors'] = rec.errors
     out['npz'] = npz
@@ -889,6 +935,44 @@ def run_opts(case, npz):
             out['to_TermList'] = [[[[op, int(i)] for op, i in t], cnum(s_)] for t, s_ in zip(tl.terms, tl.strength)]
         rec.run('to_TermList', ttl)
         rec.run('prefactor', lambda: out.__setitem__('prefactor', [cnum(H.prefactor(i, ops)) for i, ops in case['prefactors']]))
+    elif var == 'single_site':
+        # boundary of the quantifier: a finite chain of ONE site (first and last site coincide)
+        H = build_operand(sites, case['A'], 'finite')
+        out['meta'] = meta(H)
+        rec.mats['W/H'] = dense_any(H, 1)
+        psi = I.random_state(sites, {'kind': 'product'}, rng)
+        rec.mats['psi'] = I.dense_state(psi)
+        rec.run('expectation_value', lambda: out.__setitem__('expectation_value', cnum(H.expectation_value(psi))))
+        rec.run('variance', lambda: out.__setitem__('variance', cnum(H.variance(psi))))
+        rec.run('dagger', lambda: rec.mats.__setitem__('W/dagger', dense_any(H.dagger(), 1)))
+        rec.run('add', lambda: rec.mats.__setitem__('W/add', dense_any(H + H.dagger(), 1)))
+        rec.run('is_hermitian', lambda: out.__setitem__('is_hermitian', bool(H.is_hermitian())))
+        rec.run('is_equal', lambda: out.__setitem__('is_equal', [bool(H.is_equal(H.dagger())), bool(H.is_equal(H + H)), bool((H + H).is_equal(H + H))]))
+        rec.run('overlap', lambda: out.__setitem__('overlap', cnum(H.overlap(H.dagger()))))
+
+        def ttl():
+            tl = H.to_TermList(I.BASIS[case['site']['type']], ignore=['Id'])
+            out['to_TermList'] = [[[[op, int(i)] for op, i in t], cnum(s_)] for t, s_ in zip(tl.terms, tl.strength)]
+        rec.run('to_TermList', ttl)
+        for which in ('I', 'II'):
+            for q, dt in enumerate(case['dts']):
+                rec.run('make_U_%s:%d' % (which, q), lambda which=which, q=q, dt=dt: rec.mats.__setitem__('U/%s/%d' % (which, q), dense_any(H.make_U(cplx(dt), which), 1)))
+        try:
+            rec.mats['W/plus_identity'] = dense_any(H.plus_identity(cplx(case['alpha']), cplx(case['beta'])), 1)
+        except ValueError as e:
+            out['plus_identity_raises'] = 'ValueError: ' + str(e)[:100]
+        out['apply'] = {}
+        for meth in ('naive', 'SVD', 'zip_up'):
+            def ap(meth=meth):
+                p2 = psi.copy()
+                if meth == 'naive':
+                    H.apply_naively(p2)
+                else:
+                    H.apply(p2, {'compression_method': meth, 'trunc_params': {'chi_max': 10}})
+                out['apply'][meth] = {'chi_outer': [int(p2.get_B(0).get_leg('vL').ind_len), int(p2.get_B(0).get_leg('vR').ind_len)]}
+                B = p2.get_B(0, form=None).itranspose(['vL', 'p', 'vR']).to_ndarray()
+                rec.mats['apply/' + meth] = B.reshape(-1) * p2.norm
+            rec.run('apply:' + meth, ap)
     elif var == 'is_equal_eps':
         bc = case['bc']
         A = build_from_terms(sites, case['terms'], bc)
@@ -906,6 +990,9 @@ def run_opts(case, npz):
         def ttl():
             tl = A.to_TermList(I.BASIS[case['site']['type']])         # default `ignore`
             out['to_TermList_default'] = [[[[op, int(i)] for op, i in t], cnum(s_)] for t, s_ in zip(tl.terms, tl.strength)]
+            st_ = case['start'] if len(case['start']) > 1 else case['start'][0]         # (documented: "(list of) int")
+            tl = A.to_TermList(I.BASIS[case['site']['type']], start=st_, ignore=['Id'])
+            out['to_TermList_start'] = [[[[op, int(i)] for op, i in t], cnum(s_)] for t, s_ in zip(tl.terms, tl.strength)]
             tl = A.to_TermList(I.BASIS[case['site']['type']], cutoff=case['cutoff'], ignore=['Id'])
             out['to_TermList_cutoff'] = [[[[op, int(i)] for op, i in t], cnum(s_)] for t, s_ in zip(tl.terms, tl.strength)]
         rec.run('to_TermList', ttl)
@@ -917,7 +1004,6 @@ def run_opts(case, npz):
 
 def run_ext(case, npz):
     import time
-    instrument()
     t0 = time.time()
     out = globals()['run_' + case['sub']](case, npz)
     out['secs'] = round(time.time() - t0, 3)
